@@ -194,7 +194,32 @@ type c28hsm struct {
 var c28cur *c28hsm
 var c28nextLight = true // scrypt parameters of the HSM the next h-op creates (set by `reset`)
 
-func c28pw(i string) string { return "pass-" + i + "-word" }
+// the password universe of the key-store histories: number -> passphrase (fixed, so that op
+// lines replay).  Families share a prefix of 32 / 63 / 64 / 100 / 128 / 999 bytes and differ only
+// after it; the empty passphrase and one-byte ones are included.
+var c28pwTable = func() []string {
+	rep := func(ch string, n int) string { return strings.Repeat(ch, n) }
+	return []string{
+		"pass-0-word", "pass-1-word", "pass-2-word", // 0..2 short, distinct everywhere
+		"", "a", "b", // 3..5 empty / one byte
+		rep("x", 63), rep("x", 64), rep("x", 65), rep("x", 64) + "A", rep("x", 64) + "B", // 6..10 around 64
+		rep("y", 32) + "1", rep("y", 32) + "2", // 11,12 share 32
+		rep("w", 99) + "1", rep("w", 99) + "2", // 13,14 length 100, last byte differs
+		rep("z", 128) + "1", rep("z", 128) + "2", // 15,16 share 128
+		rep("v", 999) + "1", rep("v", 999) + "2", rep("v", 1000), // 17..19 length 1000 / share 999
+	}
+}()
+
+// families of passwords that are easy to confuse with one another
+var c28pwFamilies = [][]int{{0, 1, 2}, {3, 4, 5}, {6, 7, 8, 9, 10}, {11, 12, 4}, {13, 14, 19}, {15, 16, 7}, {17, 18, 19}}
+
+func c28pw(i string) string {
+	var k int
+	if _, err := fmt.Sscanf(i, "%d", &k); err == nil && k >= 0 && k < len(c28pwTable) {
+		return c28pwTable[k]
+	}
+	return "pass-" + i + "-word"
+}
 
 func c28hsmNew(dir string, light bool) *pseudohsm.HSM {
 	if light {
@@ -482,6 +507,31 @@ func c28keystore(c *Ctx, hsm bool) {
 		other = []byte(strings.ToUpper(string(other)) + "0")
 	}
 	c28op(c, fmt.Sprintf("ks %s %s #kind=wrong-password #want=err-decrypt", c28h(auth), c28h(other)))
+	// long passphrases: a pair that shares a long prefix and differs only after it / in the last byte
+	{
+		pl := []int{31, 32, 62, 63, 64, 65, 99, 127, 128, 999}[c.Rng.Intn(10)]
+		base := bytes.Repeat([]byte{byte('a' + c.Rng.Intn(26))}, pl)
+		if c.Rng.Intn(2) == 0 {
+			for i := range base {
+				base[i] = 33 + byte(c.Rng.Intn(94))
+			}
+		}
+		a1 := append(append([]byte{}, base...), 'A')
+		a2 := append(append([]byte{}, base...), 'B')
+		switch c.Rng.Intn(3) {
+		case 0:
+			a2 = append([]byte{}, base...) // proper prefix
+		case 1:
+			a2 = append(append([]byte{}, a1...), 'A') // extension
+		}
+		c28op(c, fmt.Sprintf("ks %s %s #kind=long-right-password #want=ok", c28h(a1), c28h(a1)))
+		c28op(c, fmt.Sprintf("ks %s %s #kind=long-shared-prefix-%d #want=err-decrypt", c28h(a1), c28h(a2), pl))
+		c28op(c, fmt.Sprintf("ks %s %s #kind=long-shared-prefix-%d #want=err-decrypt", c28h(a2), c28h(a1), pl))
+	}
+	if c.Rng.Intn(4) == 0 {
+		c28op(c, "ks - - #kind=empty-password #want=ok")
+		c28op(c, fmt.Sprintf("ks - %s #kind=empty-vs-nonempty #want=err-decrypt", c28h([]byte{byte(1 + c.Rng.Intn(255))})))
+	}
 	// tampered file: the MAC must catch a changed ciphertext (implementation only)
 	func() {
 		defer func() {
@@ -561,16 +611,22 @@ func c28history(c *Ctx, steps int, kind string) {
 	c28op(c, "reset #kind="+kind)
 	tag := " #kind=" + kind
 	cur := map[int]int{} // harness-side mirror only to bias the generator towards interesting ops
+	fam := c28pwFamilies[c.Rng.Intn(len(c28pwFamilies))]
+	pws := []int{fam[c.Rng.Intn(len(fam))], fam[c.Rng.Intn(len(fam))], fam[c.Rng.Intn(len(fam))]}
+	if c.Rng.Intn(3) == 0 {
+		pws[2] = c.Rng.Intn(len(c28pwTable))
+	}
 	pick := func() int { return c.Rng.Intn(3) }
+	pickPw := func() int { return pws[c.Rng.Intn(3)] }
 	for i := 0; i < steps; i++ {
 		k := pick()
 		pw, known := cur[k]
 		if !known || c.Rng.Intn(3) == 0 {
-			pw = pick()
+			pw = pickPw()
 		}
 		switch r := c.Rng.Intn(20); {
 		case r < 3 || (len(cur) == 0 && r < 10):
-			p := pick()
+			p := pickPw()
 			if c28op(c, fmt.Sprintf("hcreate %d %d%s", k, p, tag)) == "ok" {
 				cur[k] = p
 			}
@@ -579,7 +635,7 @@ func c28history(c *Ctx, steps int, kind string) {
 		case r < 12:
 			c28op(c, fmt.Sprintf("hcheck %d %d%s", k, pw, tag))
 		case r < 16:
-			n := pick()
+			n := pickPw()
 			if c28op(c, fmt.Sprintf("hresetpw %d %d %d%s", k, pw, n, tag)) == "ok" {
 				cur[k] = n
 			}
@@ -594,7 +650,7 @@ func c28history(c *Ctx, steps int, kind string) {
 			c28op(c, "hreload"+tag)
 		default:
 			for kk := 0; kk < 3; kk++ {
-				for pp := 0; pp < 3; pp++ {
+				for _, pp := range fam {
 					op := "hcheck"
 					if c.Rng.Intn(3) == 0 {
 						op = "hsign"
